@@ -38,6 +38,9 @@ var panicKinds = map[string]bool{"slice": true, "index": true, "makelen": true, 
 // Replay turns the counter-model of a failed safety obligation into an in-package Go test,
 // injects it with go test -overlay and reports whether the real code panics.
 func Replay(fr *FuncResult, o *OblResult, workdir string) ReplayResult {
+	if why := notRenderable(fr); why != "" {
+		return ReplayResult{Log: "no executable rendering of the counter-model: " + why + "\n"}
+	}
 	r := replayWith(fr, o, workdir)
 	if r.Reproduced || !panicKinds[o.Kind] {
 		return r
@@ -371,4 +374,32 @@ func lastSexp(p string) string {
 	}
 	i := strings.LastIndexAny(p, " \t\n")
 	return p[i+1:]
+}
+
+// notRenderable says why a function's parameters cannot be built from a model ("" if they can).
+func notRenderable(fr *FuncResult) string {
+	fn := fr.Fn
+	for i, p := range fn.Params {
+		if i == 0 && fn.Signature.Recv() != nil {
+			key := types.TypeString(p.Type(), func(pk *types.Package) string { return PkgShort(pk.Path()) })
+			if rec, ok := receiverRecipes[key]; !ok || rec == "" {
+				return "no receiver recipe for " + key
+			}
+			continue
+		}
+		switch u := p.Type().Underlying().(type) {
+		case *types.Basic:
+		case *types.Slice:
+			if b, ok := u.Elem().Underlying().(*types.Basic); !ok || b.Kind() != types.Uint8 {
+				return "parameter " + p.Name() + " of type " + p.Type().String()
+			}
+		case *types.Map:
+		default:
+			return "parameter " + p.Name() + " of type " + p.Type().String()
+		}
+	}
+	if fn.Parent() != nil {
+		return "anonymous function"
+	}
+	return ""
 }
